@@ -378,9 +378,14 @@ Definition f32_to_f64 (b : N) : N :=
        sign + (k + 874) * 2 ^ 52 + (m - 2 ^ k) * 2 ^ (52 - k))
   else sign + (e + 896) * 2 ^ 52 + m * 2 ^ 29.
 
-(* n.v == valueTypeUint && SignedInteger: n.i = int64(n.u) *)
+(* n.v == valueTypeUint && SignedInteger: n.i = int64(chkOvf.SignedIntV(n.u))  (after fix 3c4765d).
+   mkuint is the item when the conversion does not overflow; mkuint_r is what the code does:
+   the last statement of DecodeNaked, after the value has been read completely, halts with
+   "uint64 to int64 overflow" when n.u > math.MaxInt64. *)
 Definition mkuint (D : dopts) (u : N) : item :=
   if d_signedinteger D then IInt (signed 64 u) else IUint u.
+Definition mkuint_r (D : dopts) (u : N) : res item :=
+  if d_signedinteger D && (2 ^ 63 <=? u) then Err EOverflow else Ok (mkuint D u).
 
 (* fauxUnionReadRawBytes(asString, rawToString) *)
 Definition mkraw (asString : bool) (s : list N) : item :=
@@ -439,7 +444,7 @@ Section Dec.
         | DTrue => iret (IBool true, r)
         | DF32 => ilift (do (x, r') <- rd_nk 4 r ;; Ok (IF64 (f32_to_f64 (be_get x)), r'))
         | DF64 => ilift (do (x, r') <- rd_nk 8 r ;; Ok (IF64 (be_get x), r'))
-        | DUint k => ilift (do (x, r') <- rd_nk k r ;; Ok (mkuint D (be_get x), r'))
+        | DUint k => ilift (do (x, r') <- rd_nk k r ;; do it <- mkuint_r D (be_get x) ;; Ok (it, r'))
         | DInt k => ilift (do (x, r') <- rd_nk k r ;; Ok (IInt (signed (8 * N.of_nat k) (be_get x)), r'))
         | DFixNum => iret (IInt (signed 8 bd), r)
         | DStr w =>
